@@ -443,7 +443,21 @@ def impl_observe(data, strq, addrq, rec=None):
         segments = [{'data': run_impl(lambda: {'b': g.data().hex()}),
                      'interp': run_impl(lambda: {'b': g.get_interp_name().encode('utf-8').hex()}) if isinstance(g, InterpSegment) else None}
                     for g in segs]
-        addr = [run_impl(lambda: list(f.address_offsets(a, n))) for a, n in addrq]
+        # address_offsets is a generator and the library's own callers abandon it after the first answer
+        # (Dynamic.get_table_offset: next(elffile.address_offsets(ptr), None)); do the same on this object with
+        # another query before every second observed one (a seeded cache filled by the abandoned walk was missed
+        # while every generator was drained)
+        def poke(k):
+            if addrq and (k + len(data)) % 2 == 0:
+                a0, n0 = addrq[(k * 7 + 3) % len(addrq)]
+                try:
+                    next(f.address_offsets(a0, n0), None)
+                except Exception:       # noqa: BLE001
+                    pass
+        addr = []
+        for k, (a, n) in enumerate(addrq):
+            poke(k)
+            addr.append(run_impl(lambda: list(f.address_offsets(a, n))))
         inseg = [[run_impl(lambda: bool(g.section_in_segment(s))) for s in secs] for g in segs]
         return {'sections': sections, 'strings': strings, 'segments': segments, 'addr': addr, 'inseg': inseg}
     finally:
